@@ -208,6 +208,14 @@ func (r *Run) Violate(kind, detail string, witness map[string]any) {
 	r.mu.Lock()
 	defer r.mu.Unlock()
 	r.kindCount[kind]++
+	if f := os.Getenv("VERIF_DUMP_VIOLATIONS"); f != "" {
+		// debugging aid: append every violation (not only the first of each kind) to the named file
+		if fh, err := os.OpenFile(f, os.O_APPEND|os.O_CREATE|os.O_WRONLY, 0o644); err == nil {
+			b, _ := json.Marshal(map[string]any{"kind": kind, "detail": detail, "witness": witness})
+			fh.Write(append(b, '\n'))
+			fh.Close()
+		}
+	}
 	if len(r.byKind[kind]) < 40 {
 		r.byKind[kind] = append(r.byKind[kind], Violation{kind, detail, witness})
 	}
